@@ -11,7 +11,7 @@ Import ListNotations.
 Local Open Scope nat_scope.
 
 Lemma solve_square_exact_lemma (n : nat) (a b : mat QIF) :
-  wf QIF n n a -> pivots_nonzero QIF Qc qi_nrm Qcmult Qc_ltb 0%Qc row_scale_of_max a n -> wf QIF n 1 b ->
+  wf n n a -> pivots_nonzero QIF Qc qi_nrm Qcmult Qc_ltb 0%Qc row_scale_of_max a n -> wf n 1 b ->
   forall i, i < n ->
     mget QIF (mmul QIF n n 1 a (fst (q_mldivide a b n 1))) i 0 = mget QIF b i 0.
 Proof.
@@ -21,7 +21,7 @@ Proof.
 Qed.
 
 Lemma solve_square_unique_lemma (n : nat) (a : mat QIF) :
-  wf QIF n n a -> pivots_nonzero QIF Qc qi_nrm Qcmult Qc_ltb 0%Qc row_scale_of_max a n ->
+  wf n n a -> pivots_nonzero QIF Qc qi_nrm Qcmult Qc_ltb 0%Qc row_scale_of_max a n ->
   forall v, in_kernel QIF a n v -> forall k, k < n -> v k = c0.
 Proof. exact (lu_kernel_trivial QIF Qc qi_nrm Qcmult Qc_ltb 0%Qc row_scale_of_max a n). Qed.
 
